@@ -60,6 +60,8 @@ def resolveCols (cols : List Col) : Option (List (Str × Nat)) :=
 
 /-- the file creation inside `AddTimeBucket` -/
 def createFile (st : State) (key : String) (tf : Nat) (tbi : TBI) : State × String :=
+  -- `AddTimeBucket` validates the schema first (as far as the current source does)
+  if !validSchema codeFlags tbi then (st, "err:other") else
   match find st key with
   | some _ => (st, "err:exists")
   | none =>
